@@ -110,6 +110,12 @@ pub fn chk_result(cx: &Ctx) -> Vec<Viol> {
                 vs.push(v("zst-collect", format!("{} of a zero-sized item type returned {} elements, the sequential chain yields {}", t.name(), n, out.len())));
             }
         }
+        (Term::Count, TermResult::Count(n)) if case.src == hcore::case::Src::PRangeBig => {
+            let want = (1usize << case.spare) + 9;
+            if *n != want {
+                vs.push(v("count", format!("count of the range 1..2^{}+10 returned {}, it has {} elements", case.spare, n, want)));
+            }
+        }
         (Term::Count, TermResult::Count(n)) => {
             if *n != out.len() {
                 vs.push(v("count", format!("count returned {}, sequential chain yields {} elements", n, out.len())));
